@@ -252,13 +252,21 @@ def run(ctx):
         {"what": "missing type inside an or rule-set", "schema": '1 // {or: [{type: "@ZZ"}, {type: "integer"}]}', "types": [], "check": "E1302", "used": ["@ZZ"]},
         {"what": "types inside an or rule-set", "schema": '1 // {or: [{type: "@A"}, "@B", {type: "@C", nullable: true}, {type: "object", additionalProperties: "@D"}]}',
          "types": [["@A", "1"], ["@B", "2"], ["@C", "3"], ["@D", "4"]], "check": "ok", "used": ["@A", "@B", "@C", "@D"]},
+        {"what": "required self-reference through a key-shortcut property", "schema": "@r", "types": [["@r", '{\n  @k: @r\n}'], ["@k", '"a" // {minLength: 1}']], "check": "err", "used": ["@r"]},
+        {"what": "required self-reference through a key-shortcut property after a named one", "schema": "@r", "types": [["@r", '{\n  "n": 1,\n  @k: @r\n}'], ["@k", '"a" // {minLength: 1}']], "check": "err", "used": ["@r"]},
+        {"what": "optional self-reference through a key-shortcut property", "schema": "@r", "types": [["@r", '{\n  @k: @r // {optional: true}\n}'], ["@k", '"a" // {minLength: 1}']], "check": "ok", "used": ["@r"]},
+        {"what": "allOf names a type that was added to the inheriting type only", "schema": "@A", "roottypes": True, "types": [["@A", '{ // {allOf: "@P"}\n  "x": 1\n}']],
+         "private": [["@A", "@P", '{\n  "p": 2\n}']], "check": "ok", "used": ["@A"]},
+        {"what": "a property names a type that was added to the referring type only (control)", "schema": "@A", "roottypes": True, "types": [["@A", '{\n  "x": @P\n}']],
+         "private": [["@A", "@P", '{\n  "p": 2\n}']], "check": "ok", "used": ["@A"]},
         {"what": "root file named like the type it contains", "schema": '{\n  "a": @A\n}', "rootname": "@A", "types": [["@A", "1"]], "check": "ok", "used": ["@A"]},
     ]
     # termination on an accepted dense graph: n object types, each a required union of all of them and a terminating @Z (every cycle ends in @Z)
     nn = 8
     dense = [["@T%d" % i, '{\n  "a": %s | @Z\n}' % " | ".join("@T%d" % j for j in range(nn))] for i in range(nn)] + [["@Z", "1"]]
     fixed.append({"what": "dense union graph of %d types (Check must finish)" % nn, "schema": "@T0", "types": dense, "check": "ok", "used": ["@T0"]})
-    fouts = vc.impl_isolating(["schema"], [json.dumps({"schema": c["schema"], "types": c["types"], "optional": c.get("optional", False), "rootname": c.get("rootname", ""), "ops": [["check"], ["used"]]}) for c in fixed], 2,
+    fouts = vc.impl_isolating(["schema"], [json.dumps({"schema": c["schema"], "types": c["types"], "optional": c.get("optional", False), "rootname": c.get("rootname", ""), "roottypes": c.get("roottypes", False), "private": c.get("private", []),
+                                                          "ops": [["check"], ["used"]]}) for c in fixed], 2,
                               single_timeout=15)
     for c, o in zip(fixed, fouts):
         r = json.loads(o)
@@ -272,6 +280,12 @@ def run(ctx):
             ctx.report("%s: Check says %s, the statement says %s; root %r types %r" % (c["what"], r[0], c["check"], c["schema"], c["types"]), "c09fixed:" + c["schema"] + json.dumps(c["types"]), dict(c, implementation=r), case=c)
         elif len(r) > 1 and r[1].startswith("U:") and sorted(x for x in r[1][2:].split(",") if x) != sorted(c["used"]) and len(ctx.violations) < 40:
             ctx.report("%s: UsedUserTypes = %s, the schema text references %s; root %r" % (c["what"], r[1][2:], c["used"], c["schema"]), "c09fixedused:" + c["schema"], dict(c, implementation=r), case=c)
+    late = [{"schema": '{\n  "a": @A\n}', "ops": [[first], ["addtype", "@A", "1"], ["check"]]} for first in ("check", "ast", "example", "used", "len")]
+    for c, o in zip(late, vc.impl(["schema"], [json.dumps(c) for c in late])):
+        r = json.loads(o)
+        ctx.evaluations += 1
+        if len(r) == 3 and r[1] == "ok" and r[2].startswith("E1302") and len(ctx.violations) < 40:
+            ctx.report("AddType after %s returns no error, yet Check still says the type was not added: %s" % (c["ops"][0][0], r), "c09late:" + c["ops"][0][0], dict(c, implementation=r), case=c)
     ctx.extra["fixed_reference_forms"] = len(fixed)
     if not st["proof"] and not ctx.violations:
         ctx.report("proof obligation(s) no longer check: %s" % ", ".join(ctx.proof_broken), "proof-broken", {"broken": ctx.proof_broken}, no_input=True)
